@@ -413,6 +413,11 @@ class Universe:
         kw = {}
         if spec.get('prio', 0) != 0 or spec.get('explicit_prio'):
             kw['priority'] = self.prio_map[spec.get('prio', 0)]
+        if args and spec.get('preset'):
+            # the channels are set on the event beforehand (as an Event subclass with a `channels` attribute has them)
+            # and fire() is called without any
+            ev.channels = tuple(args)
+            args = []
         val = comp.fire(ev, *args, **kw)
         self.values[e] = val
         if ctx is not None:
